@@ -121,22 +121,38 @@ def ev_new(tid, ob: Obj, deal, trump, decl) -> Dict[str, Any]:
     return e
 
 
-def ev_play(tid, ob: Obj, seat: int, c: int, via: str = 'by_player') -> Dict[str, Any]:
+def ev_play(tid, ob: Obj, seat: int, c: int, via: str = 'by_player',
+            fork: str = '') -> Dict[str, Any]:
+    """fork ('deepcopy' | 'pickle'): the play is made on a copy of the object
+    (a rollout, a search, a checkpoint); the object itself must not notice."""
     Player = _imports()[6]
     before = ob.proj()
     why = ''
+    target = ob.obj
+    if fork:
+        import copy
+        import pickle
+        try:
+            target = copy.deepcopy(ob.obj) if fork == 'deepcopy' else pickle.loads(pickle.dumps(ob.obj))
+        except Exception as ex:  # noqa
+            return {'tid': tid, 'ev': 'play', 'o': ob.o, 'seat': seat, 'card': c, 'via': via,
+                    'res': f'copy-failed:{type(ex).__name__}', 'fork': True, 'same': True}
     try:
         if via == 'raw':
-            ob.obj.play_card(card(c))
+            target.play_card(card(c))
         else:
-            ob.obj.play_card_by_player(card(c), Player(seat + 1))
+            target.play_card_by_player(card(c), Player(seat + 1))
         res = 'ok'
     except Exception as ex:  # noqa
         res = 'raises'
         why = f'{type(ex).__name__}: {ex}'[:80]
-    after = ob.proj()
+    after = project(target, ob.mode)
     e: Dict[str, Any] = {'tid': tid, 'ev': 'play', 'o': ob.o, 'seat': seat,
                          'card': c, 'via': via, 'res': res}
+    if fork:
+        e['fork'] = True
+        if ob.proj() != before:
+            e['res'] = 'fork-changed-original'
     if res == 'raises' and after == before:
         e['same'] = True
         e['msg'] = why
@@ -271,6 +287,17 @@ def board_trace(job) -> List[Dict[str, Any]]:
                 evs.append(ev_avail(tid, o, 'dummy'))
                 if r.random() < 0.3 and hands[o.me]:
                     evs.append(ev_choose(tid, o, sorted(hands[o.me]), r))
+        # ---- a play on a copy of the object (rollout / checkpoint) ----
+        if inject and r.random() < 0.25:
+            how = 'deepcopy' if r.random() < 0.6 else 'pickle'
+            evs.append(ev_play(tid, man, active, r.choice(legal), fork=how))
+            if r.random() < 0.5:
+                evs.append(ev_play(tid, plain, active, r.choice(legal), fork=how))
+            if obs:
+                o = obs[r.randrange(4)]
+                ok_card = r.choice(legal)
+                if active not in (o.me, dummy) or ok_card in hands[active]:
+                    evs.append(ev_play(tid, o, active, ok_card, fork=how))
         # ---- refused plays (C05) ----
         if inject:
             others = [s for s in range(4) if s != active]
